@@ -39,13 +39,17 @@ type Shape struct {
 
 type Engine struct {
 	C        *TermCtx
-	MathInts bool // ints as mathematical Int (mode "ints math")
+	MathInts bool // all integer types as mathematical Int (mode "math")
+	Hybrid   bool // int/uint as mathematical Int, sized integers as bit-vectors (mode "hybrid")
 	shapes   map[string]*Shape
 	cellID   int
 }
 
+// IntIdx: indices, lengths and Go int values are mathematical integers.
+func (e *Engine) IntIdx() bool { return e.MathInts || e.Hybrid }
+
 func (e *Engine) IdxSort() *Sort {
-	if e.MathInts {
+	if e.IntIdx() {
 		return IntSort
 	}
 	return BVSort(64)
@@ -82,7 +86,7 @@ func (e *Engine) shapeOf(t types.Type) *Shape {
 		case info&types.IsInteger != 0:
 			s.Kind = ShScalar
 			s.Signed = info&types.IsUnsigned == 0
-			if e.MathInts {
+			if e.MathInts || e.Hybrid && (u.Kind() == types.Int || u.Kind() == types.Uint || u.Kind() == types.UntypedInt) {
 				s.Sort = IntSort
 			} else {
 				s.Sort = BVSort(basicWidth(u))
@@ -354,7 +358,7 @@ func (e *Engine) wellFormed(v Val, wf *[]*Term, input bool) {
 	c := e.C
 	switch x := v.(type) {
 	case Scalar:
-		if e.MathInts && x.T.Sort == IntSort {
+		if x.T.Sort == IntSort {
 			if b, ok := x.Typ.Underlying().(*types.Basic); ok && b.Info()&types.IsInteger != 0 {
 				w := basicWidth(b)
 				lo, hi := intRange(b, w)
@@ -366,9 +370,10 @@ func (e *Engine) wellFormed(v Val, wf *[]*Term, input bool) {
 			e.wellFormed(f, wf, input)
 		}
 	case SliceVal:
-		if e.MathInts {
+		if e.IntIdx() {
 			z := c.Inti(0)
-			*wf = append(*wf, c.ILe(z, x.Off), c.ILe(z, x.Len), c.ILe(x.Len, x.Cap))
+			lim := c.Inti(1 << maxLenBits)
+			*wf = append(*wf, c.ILe(z, x.Off), c.ILe(x.Off, lim), c.ILe(z, x.Len), c.ILe(x.Len, x.Cap), c.ILe(x.Cap, lim))
 			if input {
 				*wf = append(*wf, c.ILe(x.Ref, z))
 			}
@@ -479,9 +484,38 @@ func (e *Engine) heap(st *State, key string, s *Sort) *Term {
 	if h, ok := st.heaps[key]; ok {
 		return h
 	}
+	_, existed := e.C.decls["H0$"+key]
 	h := e.C.Var("H0$"+key, s)
 	st.heaps[key] = h
+	if !existed && strings.HasSuffix(key, "#ref") && strings.HasPrefix(key, "S:") {
+		e.sliceHeapAxiom(strings.TrimSuffix(key, "#ref"))
+	}
 	return h
+}
+
+// sliceHeapAxiom: slice headers stored in the initial heap are well formed and refer to
+// pre-existing backing arrays (ref <= 0).
+func (e *Engine) sliceHeapAxiom(prefix string) {
+	c := e.C
+	hs := ArraySort(IntSort, ArraySort(e.IdxSort(), IntSort))
+	hi := ArraySort(IntSort, ArraySort(e.IdxSort(), e.IdxSort()))
+	ref := c.Var("H0$"+prefix+"#ref", hs)
+	off := c.Var("H0$"+prefix+"#off", hi)
+	ln := c.Var("H0$"+prefix+"#len", hi)
+	cp := c.Var("H0$"+prefix+"#cap", hi)
+	r := c.Bound("r", IntSort)
+	j := c.Bound("j", e.IdxSort())
+	at := func(h *Term) *Term { return c.Select(c.Select(h, r), j) }
+	var body *Term
+	if e.IntIdx() {
+		z := c.Inti(0)
+		lim := c.Inti(1 << maxLenBits)
+		body = c.And(c.ILe(at(ref), z), c.ILe(z, at(off)), c.ILe(at(off), lim), c.ILe(z, at(ln)), c.ILe(at(ln), at(cp)), c.ILe(at(cp), lim))
+	} else {
+		lim := c.BVu(1<<maxLenBits, 64)
+		body = c.And(c.ILe(at(ref), c.Inti(0)), c.BVUle(at(off), lim), c.BVUle(at(ln), at(cp)), c.BVUle(at(cp), lim))
+	}
+	c.Axioms = append(c.Axioms, c.Forall([]*Term{r, j}, body))
 }
 
 func (e *Engine) sliceHeapSort(leaf LeafDesc) *Sort {
